@@ -42,7 +42,11 @@ fn list_fds() -> Vec<(i32, u64, u64, bool, i64)> {
 }
 
 fn fds_json(v: &[(i32, u64, u64, bool, i64)]) -> Value {
-    Value::Array(v.iter().map(|(n, d, i, c, ft)| json!({"fd": n, "dev": d, "ino": i, "cloexec": c, "ftype": ft})).collect())
+    Value::Array(
+        v.iter()
+            .map(|(n, d, i, c, ft)| json!({"fd": n, "dev": d, "ino": i, "cloexec": c, "ftype": ft, "procroot": *ft == 0x9fa0 && *i == 1}))
+            .collect(),
+    )
 }
 
 pub fn worker_main(req_fd: i32, resp_fd: i32, feat: &Value) -> ! {
@@ -160,10 +164,21 @@ fn run_case(case: &Value) -> (Value, Option<Ctx>) {
                 closed.push(*b);
             }
         }
+        if r.get("ret_is_new_fd").is_some() && opened.len() == 1 {
+            r["fd"] = json!(opened[0].0);
+        }
         r["fds_opened"] = fds_json(&opened);
         r["fds_closed"] = fds_json(&closed);
         r["fds_changed"] = fds_json(&changed);
         r["root_fd"] = json!(ctx.root_raw);
+        r["wpid"] = json!(unsafe { libc::getpid() });
+        let mut lent = vec![ctx.root_raw];
+        if let Some(of) = c.get("of").and_then(|v| v.as_u64()) {
+            if let Some(Some(fd)) = ctx.kept.get(of as usize) {
+                lent.push(fd.as_raw_fd());
+            }
+        }
+        r["lent"] = json!(lent);
         results.push(r);
         if poisoned {
             break;
